@@ -6,7 +6,7 @@ Module for dealing with constants `Henry's law
 
 from ._util import get_backend
 from .util.pyutil import defaultnamedtuple, deprecated
-from .units import default_units
+from .units import default_units, to_unitless
 
 
 def Henry_H_at_T(T, H, Tderiv, T0=None, units=None, backend=None):
@@ -36,7 +36,10 @@ def Henry_H_at_T(T, H, Tderiv, T0=None, units=None, backend=None):
         K = units.Kelvin
     if T0 is None:
         T0 = 298.15 * K
-    return H * be.exp(Tderiv * (1 / T - 1 / T0))
+    exponent = Tderiv * (1 / T - 1 / T0)
+    if units is not None:
+        exponent = to_unitless(exponent)
+    return H * be.exp(exponent)
 
 
 class Henry(defaultnamedtuple("Henry", "Hcp Tderiv T0 ref", [None, None])):
